@@ -27,6 +27,7 @@ import (
 	"net/http"
 	"net/netip"
 	"os"
+	"runtime"
 	"strings"
 	"sync"
 	"time"
@@ -288,20 +289,60 @@ func (e *admitEnv) httpQuery(client netip.Addr, q []byte) string {
 
 var admitStartMu sync.Mutex
 
+// admitGuard: like guard, but a script that does not finish (every step has its own 0.7 s deadline, so this
+// can only be the harness' own plumbing) is reported as a harness error for that case instead of ending the run.
+func admitGuard(id string, limit time.Duration, fn func() string) string {
+	done := make(chan string, 1)
+	go func() {
+		defer func() {
+			if r := recover(); r != nil {
+				done <- "PANIC! " + strings.ReplaceAll(fmt.Sprint(r), "\n", " ")
+			}
+		}()
+		done <- fn()
+	}()
+	select {
+	case r := <-done:
+		return r
+	case <-time.After(limit):
+		buf := make([]byte, 1<<20)
+		n := runtime.Stack(buf, true)
+		fmt.Fprintf(os.Stderr, "admit %s: script still running after %v (left behind)\n%s\n", id, limit, buf[:n])
+		return "HARNESS-ERROR script did not finish"
+	}
+}
+
 func runAdmit(id string, parts []string) string {
 	f := hx.Fields(parts)
-	return guard(id, 30*time.Second, func() string {
+	return admitGuard(id, 20*time.Second, func() string {
 		uc, err := net.ListenUDP("udp", &net.UDPAddr{IP: net.IPv4(127, 0, 0, 1)})
 		if err != nil {
 			return "HARNESS-ERROR " + err.Error()
 		}
-		defer uc.Close()
 		up := &admitUpstream{uc: uc, seen: map[string]int{}}
 		go up.serve()
 
 		env := &admitEnv{tcpConns: map[string]net.Conn{}, quicConns: map[string]quic.Connection{}}
-		defer env.close()
 		var stop func()
+		// teardown must not decide the case: bounded wait, a teardown that is still running is left behind
+		defer func() {
+			done := make(chan struct{})
+			go func() {
+				env.close()
+				if stop != nil {
+					stop()
+				}
+				uc.Close()
+				close(done)
+			}()
+			select {
+			case <-done:
+			case <-time.After(3 * time.Second):
+				buf := make([]byte, 1<<20)
+				n := runtime.Stack(buf, true)
+				fmt.Fprintf(os.Stderr, "admit %s: teardown still running after 3 s (left behind)\n%s\n", id, buf[:n])
+			}
+		}()
 		admitStartMu.Lock()
 		for try := 0; try < 5; try++ {
 			env.udpPort, _ = c15FreePort(true)
@@ -334,7 +375,6 @@ func runAdmit(id string, parts []string) string {
 		if err != nil {
 			return "HARNESS-ERROR router start: " + err.Error()
 		}
-		defer stop()
 
 		var outs []string
 		t0 := time.Now()
